@@ -3059,6 +3059,95 @@ def _devirtualise_dispatch(repo, rel, qual):
         repo.errors.append((rel + ' (dispatch devirtualisation %s)' % qual, repr(e)))
 
 
+def _enclosing_simple_stmt(fn, node):
+    for st in walk_local(fn):
+        if isinstance(st, (ast.Assign, ast.AnnAssign, ast.AugAssign, ast.Expr, ast.Return)) and any(x is node for x in ast.walk(st)):
+            return st
+    return None
+
+
+def _centres_each(st, name):
+    """st centres every element of the sequence `name`: `for c in name: c.center_coordinates()` (unconditionally,
+    first level of the body) or `[c.center_coordinates() for c in name]`."""
+    def centring(call, var):
+        return (isinstance(call, ast.Call) and isinstance(call.func, ast.Attribute) and call.func.attr == 'center_coordinates'
+                and isinstance(call.func.value, ast.Name) and call.func.value.id == var)
+    if isinstance(st, ast.For) and isinstance(st.iter, ast.Name) and st.iter.id == name and isinstance(st.target, ast.Name) and not st.orelse:
+        for b in st.body:
+            if isinstance(b, ast.Expr) and centring(b.value, st.target.id):
+                return True
+            if any(isinstance(x, (ast.Break, ast.Continue, ast.Return, ast.Raise)) for x in ast.walk(b)):
+                return False
+        return False
+    if isinstance(st, (ast.Expr, ast.Assign)) and isinstance(st.value, (ast.ListComp, ast.GeneratorExp)) and isinstance(st.value, ast.ListComp):
+        lc = st.value
+        if len(lc.generators) == 1 and not lc.generators[0].ifs and isinstance(lc.generators[0].iter, ast.Name) \
+                and lc.generators[0].iter.id == name and isinstance(lc.generators[0].target, ast.Name):
+            return centring(lc.elt, lc.generators[0].target.id)
+    return False
+
+
+def d8_precentered(ck):
+    """`batch_reassign` measures every frame against the centres with `md.rmsd(..., precentered=True)`: the call
+    skips the centring of BOTH structures, so the distance is the minimal RMSD only if each centre was centred on
+    every path that reaches the consumer.  Must-pass-through: in each caller of the consumer, a statement that
+    centres every element of the centre sequence dominates the call, with no rebinding of the sequence between."""
+    rule = 'C10.D8.reassign.precentered'
+    mod = ck.repo.mod(CU)
+    consumers = []
+    for name, fn in mod.functions.items():
+        for c in calls_in(fn):
+            if not any(kw.arg == 'precentered' and const_value(kw.value) is True for kw in c.keywords):
+                continue
+            # the call that receives the partial: its sequence-of-references argument must be a parameter
+            for outer in calls_in(fn):
+                if any(x is c for a in list(outer.args) + [k.value for k in outer.keywords] for x in ast.walk(a)) and outer is not c:
+                    ps = params(fn)
+                    refs = [a.id for a in outer.args if isinstance(a, ast.Name) and a.id in ps]
+                    cand = [r for r in refs if 'cent' in r or 'ref' in r]
+                    if len(cand) == 1:
+                        consumers.append((name, fn, cand[0], ps.index(cand[0])))
+    if not consumers:
+        ck.ok(rule, mod, None, 'no precentered=True consumer', 'no caller obligation: RMSD centres its operands itself')
+        return
+    sites = 0
+    for cname, cfn, cpar, cpos in consumers:
+        ck.analysed(mod, cfn)
+        short = cname.split('.')[-1]
+        for name, fn in mod.functions.items():
+            if fn is cfn:
+                continue
+            for c in calls_in(fn):
+                if call_name(c) != short:
+                    continue
+                arg = c.args[cpos] if cpos < len(c.args) else next((k.value for k in c.keywords if k.arg == cpar), None)
+                if not isinstance(arg, ast.Name):
+                    ck.missing(rule, 'the centres handed to %s in %s as a plain name' % (short, name))
+                    continue
+                fi = finfo(mod, fn)
+                site = _enclosing_simple_stmt(fn, c)
+                if site is None:
+                    ck.missing(rule, 'the statement of the call of %s in %s' % (short, name))
+                    continue
+                sites += 1
+                if arg.id in params(cfn) and fn is cfn:
+                    continue
+                good = [st for st in walk_local(fn) if _centres_each(st, arg.id) and fi.cfg.dominates(st, site)
+                        and fi.rd.defs_at(st, arg.id) == fi.rd.defs_at(site, arg.id)]
+                if good:
+                    ck.ok(rule, mod, good[0], u(good[0])[:80], 'every centre is centred on every path to %s (precentered=True)' % short)
+                    continue
+                anyc = [x for x in ast.walk(fn) if isinstance(x, ast.Attribute) and x.attr == 'center_coordinates']
+                other_calls = [x for x in calls_in(fn) if call_name(x) not in (short, None) and any(isinstance(a, ast.Name) and a.id == arg.id for a in x.args)]
+                if anyc or not other_calls:
+                    ck.bad(rule, mod, site, name, '%s(.. %s ..) with precentered=True' % (short, arg.id),
+                           'no statement centring EVERY element of `%s` dominates the call of %s: on some path (e.g. centres given as a '
+                           'list) the RMSD is taken with precentered=True against uncentred centres and is not the minimal distance' % (arg.id, short))
+                else:
+                    ck.missing(rule, 'centring of `%s` before %s in %s (delegated to a call that is not analysed)' % (arg.id, short, name))
+    ck.floor(rule, sites, 1, 'call of the precentered consumer')
+
+
 def check(ck):
     _devirtualise_dispatch(ck.repo, CU, 'assign_to_nearest_center')
     cu = ck.repo.mod(CU)
@@ -3078,6 +3167,7 @@ def check(ck):
     d5_partition_list(ck)
     d7_batches(ck)
     d7_batch_order(ck)
+    d8_precentered(ck)
     check_no_arg_mutation(ck, 'C10.D6.inputs-unmodified', [
         (CU, 'assign_to_nearest_center'), (CU, 'find_cluster_centers'),
         (CU, 'ClusterResult.partition'), (RA, 'partition_indices'),
